@@ -43,6 +43,42 @@ def norm_seq(ctx, f):
     return seq
 
 
+def located_rule(ctx, rule, f, conv):
+    """A value's error names its key: either the key is attached where the value result is produced
+    (then every consumer sees it), or every place that records the value's error attaches it — the
+    invalid-key path (`errors.handle(value)`) included."""
+    ats = ctx.find_calls_deep(f, r"^darling_core::error::Error::at_path$", helpers=2)
+    conv_owner = conv[0][2] if conv else None
+    at_production = False
+    for blk, t1, o in ats:
+        a0 = ctx.expr(o, t1["args"][0])
+        same_body = conv_owner is not None and (o is conv_owner or o.key.startswith(conv_owner.key + "::{closure") or conv_owner.key.startswith(o.key + "::{closure")) and conv_owner is not f
+        inline_in_loop = conv_owner is f and o is f and ("from_meta(" in a0) and not any(x in a0 for x in (".1 as Err", "handle("))
+        if (same_body or inline_in_loop or o.kind == "Closure" and a0 == "a2") and "path" in ctx.expr(o, t1["args"][1]).lower():
+            # the closure |e| e.at_path(&path) handed to map_err right at the conversion
+            if o.kind == "Closure" and a0 == "a2":
+                parent_has_conv = any(o.key.startswith(c[2].key + "::{closure") or c[2].key == o.key for c in conv) or (conv_owner is not None and o.key.startswith(conv_owner.key))
+                at_production = at_production or parent_has_conv
+            else:
+                at_production = True
+    if at_production:
+        ctx.ob(rule, f.key, "value error .at_path(&path) where the value is produced", True, "at_path calls: %s" % [[ctx.expr(o, a)[:80] for a in t1["args"]] for _, t1, o in ats])
+        return
+    # otherwise every recording of the value's error must carry the key
+    recs = []
+    for blk, t in ctx.find_calls(f, r"^darling_core::error::Accumulator::handle$"):
+        a = ctx.expr(f, t["args"][1])
+        if re.search(r"\.1$|from_meta\(", a) and "from_path(" not in a.split("from_meta(")[0][-60:]:
+            recs.append((blk, a))
+    for blk, t in ctx.find_calls(f, r"^darling_core::error::Accumulator::push$"):
+        a = ctx.expr(f, t["args"][1])
+        if re.search(r"as Err\)\.0", a) and "from_path(" not in a:
+            recs.append((blk, a))
+    bad = [(blk, a[:100]) for blk, a in recs if "at_path(" not in a]
+    ctx.ob(rule, f.key, "every recording of the value's error carries the key", bool(recs) and not bad,
+           "the key is not attached where the value is produced, so each recording must attach it; recordings without at_path: %s" % bad)
+
+
 def run(ctx):
     seqs = {}
     for ty, key, kind in MAPS:
@@ -58,9 +94,7 @@ def run(ctx):
         for blk0, t0, owner in lit_errs:
             blk1 = [b2 for b2, t2 in ctx.find_calls(owner, r"^darling_core::error::Error::unsupported_format$")][0]
             ctx.requires("C14.G.literal-item-is-error", owner, blk1, "unsupported_format", [r"discr\([^=]*\)=Lit$"])
-        ats = ctx.find_calls_deep(f, r"^darling_core::error::Error::at_path$", helpers=2)
-        okl = len(ats) == 1 and (ctx.expr(ats[0][2], ats[0][1]["args"][0]) == "a2" or "from_meta(" in ctx.expr(ats[0][2], ats[0][1]["args"][0])) and "path" in ctx.expr(ats[0][2], ats[0][1]["args"][1]).lower()
-        ctx.ob("C14.G.value-error-located-under-key", f.key, "value error .at_path(&path)", okl, "at_path calls: %s" % [[ctx.expr(o, a)[:80] for a in t1["args"]] for _, t1, o in ats])
+        located_rule(ctx, "C14.G.value-error-located-under-key", f, conv)
         # ---- main loop
         handles = ctx.find_calls(f, r"^darling_core::error::Accumulator::handle$")
         pushes = ctx.find_calls(f, r"^darling_core::error::Accumulator::push$")
